@@ -64,6 +64,23 @@ def strPrefixSelect (cwd : List Str) (paths : List Str) : List Str :=
 def guardPathFromCwd (root cwd : List Str) (dest : Str) (src : List Str) : List Str :=
   root ++ cwd ++ copyDest cwd dest src
 
+/-- NOT the code: the head of `filter_targets_from_store` that KEEPS a typed target which already
+    begins with `cwd/` as it is (taking it for a root-relative path, e.g. one offered by a completer)
+    and prefixes only the others.  At the root and for targets that do not begin with `cwd/` it is
+    `prefixStore`; kept only for `C18_keep_prefixed_target_counterexample` and
+    `C18_keep_prefixed_target_agrees_iff`. -/
+def prefixStoreKeep (cwd : List Str) (targets : Option (List Str)) : Option (List Str) :=
+  if cwd = [] then targets
+  else match targets with
+    | some ts => some (ts.map (fun t =>
+        if (cwdStr cwd ++ ['/']).isPrefixOf t then t else cwdStr cwd ++ '/' :: t))
+    | none => some [cwdStr cwd]
+
+/-- NOT the code: the selection with `prefixStoreKeep` as its head -/
+def selectStoreKeep (gm : Str → Str → Bool) (isDir : Str → Bool) (cwd : List Str)
+    (targets : Option (List Str)) (paths : List Str) : List Str :=
+  selectStoreRoot gm isDir paths (prefixStoreKeep cwd targets)
+
 /-! ## spelling a root-relative path from inside a directory -/
 
 /-- the component `..` -/
@@ -225,6 +242,33 @@ theorem globMatch_dir (d : Str) (hlit : ∀ x ∈ d, x ≠ '*' ∧ x ≠ '?') (s
   unfold globMatch
   apply gmFuel_dir d hlit
   simp
+  omega
+
+/-! ## the glob matcher on a literal pattern -/
+
+theorem gmFuel_literal (d : Str) (hlit : ∀ x ∈ d, x ≠ '*' ∧ x ≠ '?') (n : Nat) (hn : d.length + 1 ≤ n)
+    (s : Str) : gmFuel n d s = (d == s) := by
+  induction d generalizing n s with
+  | nil =>
+    match n, hn with
+    | m + 1, _ => cases s <;> simp [gmFuel]
+  | cons x d ih =>
+    have hx := hlit x (List.mem_cons_self ..)
+    match n, hn with
+    | m + 1, hm =>
+      have hm' : d.length + 1 ≤ m := by simp at hm; omega
+      cases s with
+      | nil => simp [gmFuel, hx.1]
+      | cons c cs =>
+        have ih' := ih (fun y hy => hlit y (List.mem_cons_of_mem _ hy)) m hm' cs
+        simp only [gmFuel, hx.1, hx.2, if_false, ih']
+        simp
+
+/-- a pattern without metacharacters matches exactly itself -/
+theorem globMatch_literal (d : Str) (hlit : ∀ x ∈ d, x ≠ '*' ∧ x ≠ '?') (s : Str) :
+    globMatch d s = (d == s) := by
+  unfold globMatch
+  apply gmFuel_literal d hlit
   omega
 
 end Targets
